@@ -340,6 +340,8 @@ def stepSpec {τ : Type} (v : SpecView τ) (s : τ) (ws : List String) (obs : St
 
 inductive St where
   | none
+  /-- a case the harness could not construct black-box (`=> na`): its lines are skipped -/
+  | skip
   | hashM (h : Hashable) (m : HMap Int)
   | multiM (h : Hashable) (m : HMap (List Int))
   | linkedM (h : Hashable) (l : LMap Int)
@@ -376,6 +378,7 @@ def mkState (model : Bool) (container kind : String) : Option St :=
 def checkNew (st : St) (obs : String) : Option String :=
   match st with
   | .none => some "no-container"
+  | .skip => none
   | .hashM h m => checkDump (hashView h) m obs
   | .multiM h m => checkDump (multiView h) m obs
   | .linkedM h l => checkDump (linkedView h) l obs
@@ -389,6 +392,7 @@ def checkNew (st : St) (obs : String) : Option String :=
 def stepSt (st : St) (ws : List String) (obs : String) : St × Option String :=
   match st with
   | .none => (.none, some "no-container")
+  | .skip => (.skip, if obs == "na" then none else some "unexpected observation in a skipped case")
   | .hashM h m => let r := stepModel (hashView h) m ws obs; (.hashM h r.1, r.2)
   | .multiM h m => let r := stepModel (multiView h) m ws obs; (.multiM h r.1, r.2)
   | .linkedM h l => let r := stepModel (linkedView h) l ws obs; (.linkedM h r.1, r.2)
@@ -409,8 +413,11 @@ def checker (model : Bool) : Checker where
       match mkState model container kind with
       | none => (.none, some s!"bad-op {op}")
       | some st' =>
-        if resultTok obs ≠ "ok" then (.none, some s!"constructor failed: {obs}")
+        if obs == "na" then (.skip, none)
+        else if resultTok obs ≠ "ok" then (.none, some s!"constructor failed: {obs}")
         else (st', checkNew st' obs)
-    | _ => stepSt st ws obs
+    | _ =>
+      if (words obs).contains "hang=1" then (st, some "the call did not return (a chain or the entry list is cyclic)")
+      else stepSt st ws obs
 
 end Driver.HashMap
